@@ -201,6 +201,24 @@ ssize_t __wrap_write(int fd, const void *buf, size_t n) {
   return __real_write(fd, buf, n);
 }
 
+/* This harness is single-threaded by design (virtual time, lazy feeding, one log).  The only thread the library
+ * starts on its own here - the TightVNC extension's download thread - therefore runs to completion inside
+ * pthread_create(): the replies come in a fixed order (what the two-run comparison needs) and the wraps are
+ * never entered concurrently.  Real concurrency is the business of vdrv_threads (C13). */
+#include <pthread.h>
+int __real_pthread_create(pthread_t *, const pthread_attr_t *, void *(*)(void *), void *);
+int __real_pthread_join(pthread_t, void **);
+int __wrap_pthread_create(pthread_t *t, const pthread_attr_t *a, void *(*fn)(void *), void *arg) {
+  if (!armed) return __real_pthread_create(t, a, fn, arg);
+  if (t) *t = pthread_self();
+  fn(arg);
+  return 0;
+}
+int __wrap_pthread_join(pthread_t t, void **rv) {
+  if (armed && pthread_equal(t, pthread_self())) { if (rv) *rv = NULL; return 0; }
+  return __real_pthread_join(t, rv);
+}
+
 int __wrap_select(int nfds, fd_set *r, fd_set *w, fd_set *e, struct timeval *tv) {
   int i; conn_t *c = NULL;
   long tmo = tv ? tv->tv_sec * 1000 + tv->tv_usec / 1000 : 0x7fffffff;
